@@ -180,10 +180,14 @@ def cleartext_signed_octets(text, encoding='utf-8'):
     return '\r\n'.join(lines).encode(encoding)
 
 
-def write_cleartext(text, sig_packets, hash_names, headers=(), eol='\n'):
+def write_cleartext(text, sig_packets, hash_names, headers=(), eol='\n', hash_style='comma'):
+    """hash_style: 'comma' (one header, comma-delimited), 'lines' (one Hash header per algorithm: RFC 4880 7 says "one or more"),
+    'comma-space' (a blank after each comma, as some writers do)"""
     out = ['-----BEGIN PGP SIGNED MESSAGE-----']
-    if hash_names:
-        out.append('Hash: ' + ','.join(hash_names))
+    if hash_names and hash_style == 'lines':
+        out += ['Hash: ' + h for h in hash_names]
+    elif hash_names:
+        out.append('Hash: ' + (', ' if hash_style == 'comma-space' else ',').join(hash_names))
     out.append('')
     out.append(dash_escape(text).replace('\n', eol))
     return eol.join(out) + eol + write_block('SIGNATURE', sig_packets, headers, eol=eol)
